@@ -32,7 +32,8 @@ META = {
                   'class:id-gap': 100, 'class:nondefault-defense': 100, 'class:asset-extras': 50, 'class:assoc-extras': 40,
                   'class:attackers>=2': 50, 'class:hostile-name': 100, 'handwritten:permuted': 100,
                   'handwritten:shorthand': 30, 'handwritten:scalar-target': 30, 'handwritten:id0-not-first': 30,
-                  'resave-compared': 300, 'class:default-on-defense-off': 20},
+                  'resave-compared': 300, 'class:default-on-defense-off': 20,
+                  'class:resave-same-path-after-entry-point-edit': 50},
         'thorough': {'format:json': 20000, 'format:yml': 20000, 'format:yaml': 10000, 'class:id-0': 5000,
                      'class:assoc-extras': 3000, 'handwritten:permuted': 5000, 'handwritten:shorthand': 1000,
                      'handwritten:scalar-target': 1000, 'resave-compared': 40000},
@@ -268,6 +269,30 @@ def _check_case(case, res, count=True):
         if c1 != c2:
             from .C03 import first_diff
             return ('model.resave:content-differs', 'save(load(save(m))) differs from save(m) at %s' % first_diff(c1, c2))
+        # the same model edited in place and saved to the SAME path again
+        if sh.attackers and any(t.eps for t in sh.attackers):
+            t = next(t for t in sh.attackers if t.eps)
+            akey, steps = t.eps[0]
+            a = sh.asset(akey)
+            new_step = next((s2 for s2 in lang.steps(a.type) if s2 not in steps), None)
+            if new_step is not None:
+                ls.real[t.key].add_entry_point(ls.real[akey], new_step)
+                steps.append(new_step)
+                if count:
+                    res.count('class:resave-same-path-after-entry-point-edit')
+                try:
+                    ls.model.save_to_file(p1)
+                    m4 = Model.load_from_file(p1, ls.factory)
+                    got4 = typed_view(m4, lang)
+                except Divergence as dv:
+                    return (dv.key, dv.what)
+                except Exception as exc:
+                    return ('model.resave-same-path:raised-%s' % type(exc).__name__, 'saving / loading again raised %r' % (exc,))
+                f = diff_views(got4, shadow_view(ls))
+                if f:
+                    return (f[0].replace('model.load', 'model.resave-same-path'),
+                            'model edited in place (entry point %r added on asset %s) and saved to the same .%s path again: %s' % (new_step, a.id, case['fmt'], f[1]))
+                want = shadow_view(ls)
         # hand-written file
         rng = random.Random(case['hw_seed'])
         hw = handwritten_dict(rng, ls, res, count)
